@@ -128,6 +128,13 @@ InsideBucket(p) == /\ p # <<>> /\ Head(p) # "e"
                         /\ \A i \in 1..Len(ds) : ds[i] >= 0
                         /\ ds[Len(ds)] >= 1 /\ p[Len(p)] = "n"
 
+(* Objects live in one directory per week.  "Creates or changes nothing" and  *)
+(* "no write outside the bucket" are about everything a request can leave    *)
+(* behind, directories included: below the bucket directory there is exactly *)
+(* one directory for every week that has a stored object, and none anywhere  *)
+(* else that was not there before.                                           *)
+Dirs(bk) == {[y |-> k.y, m |-> k.m, d |-> k.d] : k \in DOMAIN bk}
+
 Content(r) == [week |-> r.week, config |-> r.config, x |-> r.x, pform |-> r.pform, programs |-> r.programs, tag |-> r.tag]
 
 (* ---- the endpoint as a state machine -------------------------------------- *)
